@@ -107,15 +107,14 @@ def toAffine (p : Jac) : G2Pt :=
     G2Pt.ofXY (Fp2.mul p.X zi2) (Fp2.mul p.Y (Fp2.mul zi zi2))
 end Jac
 
-/-- Bits of `n`, most significant first (`[]` for 0). -/
-def bitsMSB (n : Nat) : List Bool := Id.run do
-  let mut acc : List Bool := []
-  let mut n := n
-  for _ in [0:n.log2 + 1] do
-    if n == 0 then break
-    acc := (n % 2 == 1) :: acc
-    n := n / 2
-  return acc
+/-- Worker of `bitsMSB`: prepends the bits of `n` (least significant first) to `acc`; `fuel ≥ log2 n + 1`. -/
+def bitsAux : Nat → Nat → List Bool → List Bool
+  | 0, _, acc => acc
+  | fuel + 1, n, acc => if n == 0 then acc else bitsAux fuel (n / 2) ((n % 2 == 1) :: acc)
+
+/-- Bits of `n`, most significant first (`[]` for 0). Structural recursion on fuel (no `for` loop) so
+that proofs about `G2.mul` can go by induction. -/
+def bitsMSB (n : Nat) : List Bool := bitsAux (n.log2 + 1) n []
 
 /-- `[n]P` for an arbitrary natural `n` (not reduced mod `R`, so it is meaningful for points outside
 the subgroup too): left-to-right double-and-add in Jacobian coordinates, one inversion at the end. -/
